@@ -104,7 +104,8 @@ Section Good5.
       - intros o c Hc. discriminate.
       - exact (g_own _ _ _ _ G).
       - exact (g_links _ _ _ _ G).
-      - exact (g_passed _ _ _ _ G). }
+      - exact (g_passed _ _ _ _ G).
+      - exact (g_kept _ _ _ _ G). }
     destruct (Hm _ _ _ Gi E) as [G1 Q1]. split; [|exact Q1].
     apply Hmono in E. destruct E as (E1 & _ & E3 & E4). simpl in E1, E3, E4.
     assert (L' : le st (St (hp s1) (vmap st) (passed s1) (kept s1))).
@@ -117,6 +118,7 @@ Section Good5.
     - exact (g_own _ _ _ _ G1).
     - exact (g_links _ _ _ _ G1).
     - exact (g_passed _ _ _ _ G1).
+    - exact (g_kept _ _ _ _ G1).
   Qed.
 
   Definition MdR (h : heap) (m m' : id) : Prop :=
